@@ -271,12 +271,12 @@ def rule_claim_order(ctx: RuleContext, p: Program, rid: str) -> None:
 
 def run(ctx: RuleContext, p: Program) -> None:
     tcs = build_tree_classes(p)
-    rule_claim_guard(ctx, p, 'CLAIM-GUARD')
-    rule_claim_flag(ctx, p, 'CLAIM-FLAG')
-    rule_claim_init(ctx, p, 'CLAIM-INIT')
-    gen.rule_cover_claim(ctx, p, tcs, 'COVER-CLAIM')
+    ctx.try_rule(rule_claim_guard, p, 'CLAIM-GUARD')
+    ctx.try_rule(rule_claim_flag, p, 'CLAIM-FLAG')
+    ctx.try_rule(rule_claim_init, p, 'CLAIM-INIT')
+    ctx.try_rule(gen.rule_cover_claim, p, tcs, 'COVER-CLAIM')
     ctx.require_min('COVER-CLAIM', 34)
-    rule_claim_order(ctx, p, 'CLAIM-ORDER')
+    ctx.try_rule(rule_claim_order, p, 'CLAIM-ORDER')
     ctx.not_decided += ['attribution rules for each layout (blank lines, indentation classes)', 'idempotence and '
                         'claim/unclaim restoration as runtime facts', 'that default parsing leaves no comment unowned']
     ctx.assumptions += ['a comment is owned iff it is stored in a _leading/_trailing slot or in Repeated.items']
